@@ -75,6 +75,9 @@ int libwifi_parse_beacon(struct libwifi_bss *bss, struct libwifi_frame *frame) {
     bss->tags.length = (frame->len - (frame->header_len + sizeof(struct libwifi_beacon_fixed_parameters)));
     const unsigned char *tagged_params = frame->body + sizeof(struct libwifi_beacon_fixed_parameters);
     bss->tags.parameters = malloc(bss->tags.length);
+    if (bss->tags.parameters == NULL) {
+        return -ENOMEM;
+    }
     memcpy(bss->tags.parameters, tagged_params, bss->tags.length);
 
     // Iterate through common BSS tagged parameters (WPA, RSN, etc)
